@@ -1700,6 +1700,12 @@ func (a *algo) rangeStmt(x *ast.RangeStmt, rest []ast.Stmt, env aenv, tail strin
 		}
 		e2[valName] = tStr
 		binders = binder(valName)
+	case tSliceCode:
+		if keyName != "_" {
+			bail("index variable in a slice fold")
+		}
+		e2[valName] = tCode
+		binders = binder(valName)
 	case tMapStr, tMapDef:
 		vt := tDef
 		if ct == tMapStr {
@@ -1922,7 +1928,7 @@ var algoTargets = []string{".IsReservedWord", "File.isLocal", "File.isValidAlias
 	// text-producing functions without recursion through Code (tie 1b, second group)
 	"comment.render", "tag.isNull", "tag.render", "File.renderImports",
 	// null-ness (open recursion through the Code interface: `recNull`)
-	"token.isNull", "comment.isNull", "Group.isNullItems", "Group.isNull", "Statement.isNull", "Dict.isNull",
+	"token.isNull", "comment.isNull", "Group.isNullItems", "Group.countItems", "Group.isNull", "Statement.isNull", "Dict.isNull",
 	// the render methods of Statement and Group (algo_render.go)
 	"Statement.render", "Group.renderItems", "Group.render", "Dict.render", "token.render",
 	// the entry points, with the environment as a parameter (algo_effect.go)
